@@ -24,14 +24,17 @@ FUNCTIONS = ["strax.run_selection.define_run", "Context.get_components (superrun
 BOUNDS = {
     "quick": "1..3 subruns with independent symbolic layouts (<=2 chunks, <=2 rows each); superrun-capable level at depth "
              "1 and 2; combined on the fly and written (write_superruns) + re-read, also rechunked on save across subrun "
-             "borders (1-row target); redefinition of the superrun",
+             "borders (1-row target); redefinition of the superrun; Chunk.split of a row-less superrun chunk over two "
+             "runs with symbolic spans in [0, 1000] (empty spans included) at a symbolic time",
     "thorough": "4 subruns, <=3 chunks per subrun",
 }
 ASSUMPTIONS = ["run-level start/end metadata are concrete, ordered datetimes (datetime objects are not encoded)",
                "data time ranges of consecutive subruns are ordered and disjoint (documented requirement)",
                "multi_run's thread pool is replaced by a synchronous stub executor (C15 covers its ordering)",
                "all time values in [0, 2^62)"]
-OUTSIDE = ["sub-run time-range specs other than 'all'", "threaded processor for superruns"]
+OUTSIDE = ["sub-run time-range specs other than 'all'", "threaded processor for superruns", "OverlapWindowPlugin / "
+           "DownChunkingPlugin as superrun levels and superrun processing starting at two levels of one graph (only "
+           "Chunk.split's part of it is decided, by splitrun)"]
 STUBS = ["np/int/min/max shims", "in-memory frontend", "synchronous executor in strax.utils.multi_run"]
 SUP = "_sup"
 
